@@ -572,6 +572,9 @@ func EmitPoke(w *bufio.Writer, cells [][2]int) {
 	fmt.Fprintf(w, `{"e":"p","cells":%s}`+"\n", jPairs(cells))
 }
 
+// Hangs counts the Run calls of this process that did not return (each leaves a goroutine spinning on a core).
+var Hangs int
+
 // RunSpec describes one CPU.Run call of a scenario.
 type RunSpec struct {
 	BP     []int `json:"bp"`     // break points
@@ -650,6 +653,7 @@ func (m *Machine) RunAndEmit(w *bufio.Writer, rs *RunSpec, watchdog time.Duratio
 	select {
 	case res = <-done:
 	case <-time.After(watchdog):
+		Hangs++
 		fmt.Fprintf(w, `{"e":"x","what":"hang","msg":"Run did not return within %s","run":{"bp":%s,"sched":%s,"cancel":%d}}`+"\n",
 			watchdog, jInts(rs.BP), jInts(rs.Sched), rs.Cancel)
 		return false
